@@ -48,3 +48,7 @@ CLAIMED["C28"] = (
  "global-store analysis on SSA over VTA-reachable functions from the api package (stores rooted at package variables, map updates, interprocedural write-through-parameter summaries with guard awareness), minus call edges made under a held package-level mutex; frozen benign table",
  "Decides that no function reachable from the exported api functions without a held package-level lock writes package-level state, other than the triaged benign rows. Names the variable and writer for each finding. Does not decide races inside the vendored wazero engine, sharing through heap objects passed between calls by design, or interference through the file system.",
  CG_BASE)
+CLAIMED["C30"] = (
+ "AST shape rules and SSA path analysis over apptest.runTest (report=>record, record=>verdict, failing exits print FAIL, contract comparison operators, infrastructure errors reach a non-zero exit)",
+ "Decides the verdict plumbing of `wa test`: every printed failure is recorded or exits non-zero, a recorded failure prints FAIL and exits non-zero, the ok line cannot be reached with a recorded failure, the output/panic contracts are compared the way the property states, and load/compile/assemble/instantiate errors exit non-zero on every path. Does not decide output normalisation, pattern selection or the loader's extraction of expected output.",
+ SSA_BASE)
